@@ -282,6 +282,21 @@ def r5(ctx, facts, model):
             deps = b.deps(ao) | {ao}
             sel = sorted({b.term(d[1])["callee"].get("name") for d in deps if d[0] == "call" and isinstance(b.term(d[1])["callee"], dict) and
                           b.term(d[1])["callee"].get("name") in SELECTIVE})
+            # the expansion layer turns `iter().filter(..).map(..).collect()` into a loop with a branch, where no `filter` call is left to see:
+            # ask the unexpanded body as well (seed C10-k1: `let dead: Vec<_> = delete.iter().filter(|e| !self.is_alive(e)).map(..).collect();
+            # self.cache.extend(dead)` - also recycles the index of the stale handle that made the batch fail)
+            try:
+                raw = ctx.facts(facts.config)
+                for rb in raw.by_path.get(b.src(bb), []) or raw.by_path.get(b.path, []):
+                    for rbb, rt in rb.real_calls():
+                        rtg = {x.path for x in raw.targets(rt["callee"])} | {rt["callee"].get("path")}
+                        if (rtg & set(model.growers)) and len(rt["args"]) >= 2 and rt.get("line") == t.get("line"):
+                            rao = rb.arg_origin(rbb, len(rt["args"]) - 1)
+                            rdeps = rb.deps(rao) | {rao}
+                            sel = sorted(set(sel) | {rb.term(d[1])["callee"].get("name") for d in rdeps if d[0] == "call" and
+                                                     isinstance(rb.term(d[1])["callee"], dict) and rb.term(d[1])["callee"].get("name") in SELECTIVE})
+            except Exception:
+                pass
             ctx.ob("C17-R5", "%s hands the free list everything it collected (%s, site %d)" % (b.path, t["callee"].get("name"), nth[b.path]), not sel, b.loc(bb),
                    "" if not sel else "the indices passed to the free list go through %s first: an index that was killed but filtered out here is never "
                    "handed out again (leaked for the life of the world)" % sel)
